@@ -665,6 +665,8 @@ def spec_step(m: dict, op, universe):
             if name not in m and collides(m, name):
                 outs.append((REFUSED, m))
             return outs
+        if name not in m and collides(m, name):
+            return [(REFUSED, m)]
         return [("ok:0", m)]
     if k == "Y":
         name, target = op[1], op[2]
@@ -835,6 +837,13 @@ class Target:
 
 def supported(backend: str, op) -> bool:
     k = op[0]
+    if backend in ("nsdisk", "nsdict"):
+        # HEAD is passed through un-namespaced and shared with whatever lives outside the namespace, and a raw
+        # `ref: x` value written as a plain value is not translated: what the view should be is not specified
+        if any(isinstance(x, bytes) and x == HEAD for x in op[1:3]):
+            return False
+        if k in ("S", "I", "A") and op[-1].startswith(SYM):
+            return False
     if backend in ("dict", "nsdict"):
         return k not in ("K", "E")
     if backend == "reftable":
@@ -987,7 +996,7 @@ def classify(backend: str, op, ret: str, pre_raw: dict, post_raw: dict, pre_st, 
                     return "disk-create-over-packed-only-descendant"
                 if anc_packed and k in ("A", "Y"):
                     return "disk-create-under-packed-only-ancestor"
-            if ret == "err:os" and not collides(pre_raw, r):
+            if (ret == "err:os" or (k == "A" and ret == "ok:0")) and not collides(pre_raw, r):
                 if pr in dirs and not any(is_anc(pr, x) for x in pre_full):
                     return "disk-stale-empty-directory-blocks-create"
                 parent = pr.rsplit(b"/", 1)[0] if b"/" in pr else None
@@ -997,6 +1006,11 @@ def classify(backend: str, op, ret: str, pre_raw: dict, post_raw: dict, pre_st, 
         pr = ap(op[1])
         if pr in dirs and not any(is_anc(pr, x) for x in pre_full):
             return "disk-stale-empty-directory-blocks-delete"
+    if k == "A" and ret == "ok:0":
+        n = ap(op[1])
+        f = spec_follow(pre_full, n)
+        if isinstance(f, tuple) and f[1] is None and len(f[0]) > 1 and n in packed and files.get(n, b"").startswith(SYM):
+            return "disk-add_if_new-consults-packed-refs-under-the-symref-name"
     if k == "K":
         loops = [x for x in pre_full if x != HEAD and spec_follow(pre_full, x) in ("loop", "deep")]
         if ret == "err:symrefloop" and loops:
@@ -1009,12 +1023,12 @@ def classify(backend: str, op, ret: str, pre_raw: dict, post_raw: dict, pre_st, 
     if k == "E":
         n = ap(op[1])
         if n in packed:
-            if n in files and n in peeled:
-                return "disk-get_peeled-stale-under-loose-override"
+            if n in files:
+                return "disk-get_peeled-uses-packed-info-under-loose-override"
             if n in peeled and repos.peel.get(packed[n]) != peeled[n]:
-                return "disk-get_peeled-stale-peeled-line"
+                return "packed-refs-stale-peeled-line"
             if n not in peeled and repos.peel.get(packed[n]) != packed[n]:
-                return "disk-get_peeled-annotated-tag-packed-without-peeled-line"
+                return "packed-refs-annotated-tag-without-peeled-line"
     return None
 
 
@@ -1068,6 +1082,12 @@ def oracle_step(ctx, stream, mk_case, backend, op, ret, pre, post, repos):
             f = spec_follow(pre_raw, op[1]) if k in ("S", "I", "A") else ([op[1]], None)
             r = f[0][-1] if isinstance(f, tuple) else op[1]
             if collides(pre_raw, r):
+                return "skip"
+        if k in ("S", "I", "A", "Y", "R", "X"):
+            f = spec_follow(pre_raw, op[1]) if k in ("S", "I", "A") else ([op[1]], None)
+            r = f[0][-1] if isinstance(f, tuple) else op[1]
+            if r in pre_raw and collides(pre_raw, r):
+                # both `a` and `a/b` exist: only reachable through an already reported refusal failure
                 return "skip"
         allowed = spec_step(pre_raw, op, set(NAMES))
         if allowed is None:
@@ -1128,10 +1148,12 @@ def git_view_check(ctx, stream, mk_case, repos: Repos, d: Path, st, c):
                                            f"{got!r:.200}", None)
     for k, v in sorted(raw.items()):
         # (git symbolic-ref cannot print a symref that is part of a loop: not compared)
-        if v.startswith(SYM) and isinstance(spec_follow(raw, k), tuple):
+        f = spec_follow(raw, k)
+        if v.startswith(SYM) and isinstance(f, tuple):
+            # git 2.39 `symbolic-ref <name>` prints the name at the end of the symref chain
             rc, out, err = repos.git_rc(d, "symbolic-ref", k.decode())
-            if rc != 0 or out.rstrip(b"\n") != v[len(SYM):]:
-                ctx.oracle_fail(stream, mk_case(), f"git symbolic-ref {k!r} -> rc={rc} {out!r}, expected {v[len(SYM):]!r}",
+            if rc != 0 or out.rstrip(b"\n") != f[0][-1]:
+                ctx.oracle_fail(stream, mk_case(), f"git symbolic-ref {k!r} -> rc={rc} {out!r}, expected {f[0][-1]!r}",
                                 None)
     if HEAD in view:
         rc, out, err = repos.git_rc(d, "rev-parse", "--verify", "-q", "HEAD")
@@ -1150,10 +1172,11 @@ def git_view_check(ctx, stream, mk_case, repos: Repos, d: Path, st, c):
         if name.endswith(b"^{}"):
             n = name[:-3]
             if n in packed and n not in files:
-                if n in peeled and repos.peel.get(packed[n]) != peeled[n]:
-                    cls = "git-show-ref-stale-peeled-line"
+                true_peel = repos.peel.get(packed[n])
+                if n in peeled and (true_peel != peeled[n] or true_peel == packed[n]):
+                    cls = "packed-refs-stale-peeled-line"
                 elif n not in peeled and repos.peel.get(packed[n]) != packed[n]:
-                    cls = "git-show-ref-annotated-tag-packed-without-peeled-line"
+                    cls = "packed-refs-annotated-tag-without-peeled-line"
         ctx.oracle_fail(stream, mk_case(), f"git show-ref -d: line {line!r} is "
                                            f"{'missing' if line in exp_lines else 'unexpected'}", cls)
     return "checked"
@@ -1537,14 +1560,15 @@ def stream_packed(ctx):
 # ------------------------------------------------------------------------------------------------
 # corpus, run, search, replay
 
-def run_case(ctx, repos, stream: str, case: dict):
+def run_case(ctx, repos, stream: str, case: dict, verbose: bool = False):
     """Re-execute one stored case (corpus witness or replay file) through the same oracles."""
+    say = print if verbose else (lambda *a, **k: None)
     if "name" in case:
         n = unhx(case["name"])
         r = real_check_ref_format(n)
         g = git_check_many([n], repos.env)[0]
         mo = ctx.driver.batch(["c16.fmt " + hx(n)])[0]
-        print(f"  check_ref_format({n!r}) = {r}; git check-ref-format: {g}; model: {mo}")
+        say(f"  check_ref_format({n!r}) = {r}; git check-ref-format: {g}; model: {mo}")
         if r == "raise":
             ctx.oracle_fail(stream, case, "check_ref_format raised", None)
         elif g is not None and r != ("1" if g else "0"):
@@ -1552,14 +1576,27 @@ def run_case(ctx, repos, stream: str, case: dict):
         return
     if "file" in case:
         data = unhx(case["file"])
-        print("  packed-refs read:", real_read_packed(ctx, data))
+        back = real_read_packed(ctx, data)
+        mo = ctx.driver.batch(["c16.packed.read " + hx(data)])[0]
+        say("  packed-refs read:", back, "model:", mo[:200])
+        if back[0] != "err":
+            import io
+            from dulwich.refs import write_packed_refs
+            f = io.BytesIO()
+            write_packed_refs(f, back[0], back[1])
+            if real_read_packed(ctx, f.getvalue()) != back:
+                ctx.oracle_fail(stream, case, "packed-refs written and read back differ", None)
         return
     if "backend" in case:
         ops = [op_from_json(o) for o in case["ops"]]
         res = run_sequence(ctx, repos, case["backend"], init_from_json(case["init"]), ops, stream=stream.split(".git")[0].split(".model")[0],
                            git_every=1)
         for op, ret in zip(res.ops, res.rets):
-            print(f"  {op_readable(op)} -> {ret[:100]}")
+            say(f"  {op_readable(op)} -> {ret[:100]}")
+        if verbose:
+            compare_with_model(ctx, [res])
+            for dgr in ctx.disagreements[-1:]:
+                say("  model disagrees:", str(dgr["model"])[:200], "| impl:", str(dgr["impl"])[:200])
         return
     raise core.InfraError(f"unrecognised case {case!r:.200}")
 
@@ -1598,7 +1635,7 @@ def run(ctx: core.Ctx):
     _run_corpus(ctx, repos)
     stream_fmt(ctx, repos)
     stream_packed(ctx)
-    stream_sequences(ctx, repos, ctx.budget(60), git_every=5 if ctx.thorough else 0)
+    stream_sequences(ctx, repos, ctx.budget(160, mult=8), git_every=5 if ctx.thorough else 0)
     ctx.extra_cov["backends"] = list(BACKENDS)
     ctx.extra_cov["universe"] = [n.decode() for n in NAMES]
 
@@ -1668,9 +1705,9 @@ def replay(ctx: core.Ctx, data: dict) -> int:
         for dgr in data.get("disagreements", [])[:3]:
             print("  disagreement:", str(dgr)[:300])
             if "case" in dgr and dgr["case"]:
-                run_case(ctx, repos, "replay", dgr["case"])
+                run_case(ctx, repos, "replay", dgr["case"], verbose=True)
     else:
-        run_case(ctx, repos, data.get("stream", "replay"), data.get("case", {}))
+        run_case(ctx, repos, data.get("stream", "replay"), data.get("case", {}), verbose=True)
     for k in ctx.known:
         if ctx.known_hit.get(k["id"]):
             print(f"KNOWN-FINDING: property=C16 {k['id']}: {k['what']}")
